@@ -19,6 +19,7 @@ pub const SOCK: &str = "/tmp/l3h-setup.sock";
 const P_PLAIN: u16 = 38901;
 const P_STARTTLS: u16 = 38902;
 const P_LDAPS: u16 = 38903;
+const P_SILENT: u16 = 38904;
 
 #[derive(Clone, Default, Debug)]
 pub struct Behaviour { pub answer: String, pub cert: String, pub handshake_ok: bool, pub extra: Vec<u8> }
@@ -63,6 +64,11 @@ pub fn net() -> &'static Net {
         match rt.block_on(async { UnixListener::bind(SOCK) }) {
             Ok(l) => { rt.spawn(async move { loop { if let Ok((mut s, _)) = l.accept().await { let ev = ev.clone(); tokio::spawn(async move {
                     ev.lock().unwrap().push("unix:plain".to_string()); let mut buf = [0u8; 64]; let _ = tokio::time::timeout(Duration::from_secs(3), s.read(&mut buf)).await; }); } } }); }
+            Err(_) => ok = false,
+        }
+        // a listener that accepts and then neither answers nor closes (for the connection-timeout cases)
+        match rt.block_on(TcpListener::bind(("127.0.0.1", P_SILENT))) {
+            Ok(l) => { rt.spawn(async move { loop { if let Ok((s, _)) = l.accept().await { tokio::spawn(async move { tokio::time::sleep(Duration::from_secs(6)).await; drop(s); }); } } }); }
             Err(_) => ok = false,
         }
         // behaviour listeners (C17)
@@ -144,7 +150,10 @@ pub fn gen_setup(rng: &mut Rng, n: usize, out: &mut Vec<String>) {
     }
     // oracle-only: unreachable endpoint; a connection timeout bounds StartTLS against a silent server
     out.push(format!("setupx {} unreachable", hex(b"ldap://127.0.0.1:38999")));
-    out.push(format!("setupx {} silent-starttls", hex(format!("ldap://127.0.0.1:{}", P_PLAIN).as_bytes())));
+    out.push(format!("setupx {} silent-starttls", hex(format!("ldap://127.0.0.1:{}", P_SILENT).as_bytes())));
+    out.push(format!("setupx {} silent-starttls-prestream", hex(b"ldap://localhost")));
+    out.push(format!("setupx {} silent-ldaps", hex(format!("ldaps://127.0.0.1:{}", P_SILENT).as_bytes())));
+    out.push(format!("setupx {} silent-ldaps-prestream", hex(b"ldaps://localhost")));
 }
 
 pub fn run_setup(lane: &str, args: &[&str]) -> (String, Option<String>) {
@@ -152,8 +161,9 @@ pub fn run_setup(lane: &str, args: &[&str]) -> (String, Option<String>) {
     if !nt.ok { return ("skipped".into(), None); }
     let url = String::from_utf8(unhex(args[0])).unwrap();
     if lane == "setupx" {
-        let (starttls, tmo) = if args[1] == "silent-starttls" { (true, Some(400u64)) } else { (false, Some(1500)) };
+        let (starttls, tmo) = if args[1].starts_with("silent-starttls") { (true, Some(400u64)) } else if args[1].starts_with("silent-ldaps") { (false, Some(400)) } else { (false, Some(1500)) };
         let mut st = LdapConnSettings::new().set_starttls(starttls); if let Some(t) = tmo { st = st.set_conn_timeout(Duration::from_millis(t)); }
+        if args[1].ends_with("prestream") { match std::net::TcpStream::connect(("127.0.0.1", P_SILENT)) { Ok(s) => { st = st.set_std_stream(StdStream::Tcp(s)); } Err(_) => return ("skipped".into(), None) } }
         let t0 = std::time::Instant::now();
         let r = nt.rt.block_on(async { tokio::time::timeout(Duration::from_secs(4), LdapConnAsync::with_settings(st, &url)).await });
         let o = match r { Err(_) => Some("connection establishment did not return within 4 s although a connection timeout was set".to_string()), Ok(Ok(_)) => Some("establishment succeeded against an endpoint that cannot complete it".to_string()), Ok(Err(_)) => if t0.elapsed() > Duration::from_millis(3000) { Some("the connection timeout did not bound the establishment".to_string()) } else { None } };
